@@ -59,6 +59,9 @@ const SNAPSHOT_RETENTION_COUNT: usize = 3;
 /// Lock file name for crash detection
 const LOCK_FILE_NAME: &str = ".state.lock";
 
+/// File holding the key of the WAL record HMACs
+const INTEGRITY_KEY_FILE_NAME: &str = ".wal.key";
+
 /// WAL file extension
 const WAL_EXTENSION: &str = "wal";
 
@@ -67,7 +70,6 @@ const SNAPSHOT_EXTENSION: &str = "snap";
 
 /// State file permissions (owner read/write only)
 #[cfg(unix)]
-#[allow(dead_code)]
 const STATE_FILE_PERMISSIONS: u32 = 0o600;
 
 /// Transaction type for WAL entries
@@ -465,9 +467,10 @@ impl<T: Serialize + for<'de> Deserialize<'de> + Clone + PartialEq + Send + Sync 
             ))
         })?;
 
-        // Generate HMAC key
-        let mut hmac_key_bytes = vec![0u8; 32];
-        rand::thread_rng().fill_bytes(&mut hmac_key_bytes);
+        // Load the WAL integrity key of this state directory, creating it on first
+        // use. A key that only lives in the process that wrote the log makes every
+        // record fail verification after a restart, i.e. nothing is ever recovered.
+        let hmac_key_bytes = Self::load_or_create_integrity_key(&config.state_dir)?;
         let hmac_key = SecureMemory::from_slice(&hmac_key_bytes)?;
 
         // Create WAL writer
@@ -493,6 +496,44 @@ impl<T: Serialize + for<'de> Deserialize<'de> + Clone + PartialEq + Send + Sync 
         manager.start_checkpoint_task()?;
 
         Ok(manager)
+    }
+
+    /// Read the integrity key kept next to the log, or create it.
+    fn load_or_create_integrity_key(state_dir: &Path) -> Result<Vec<u8>> {
+        let key_path = state_dir.join(INTEGRITY_KEY_FILE_NAME);
+        if let Ok(existing) = std::fs::read(&key_path)
+            && existing.len() == 32
+        {
+            return Ok(existing);
+        }
+
+        let mut key = vec![0u8; 32];
+        rand::thread_rng().fill_bytes(&mut key);
+
+        // Write-then-rename so that a crash never leaves a short key behind
+        let tmp_path = key_path.with_extension("tmp");
+        {
+            let mut options = OpenOptions::new();
+            options.create(true).write(true).truncate(true);
+            #[cfg(unix)]
+            {
+                use std::os::unix::fs::OpenOptionsExt;
+                options.mode(STATE_FILE_PERMISSIONS);
+            }
+            let mut file = options.open(&tmp_path).map_err(|e| {
+                P2PError::Storage(StorageError::Database(
+                    format!("Failed to create integrity key file: {e}").into(),
+                ))
+            })?;
+            file.write_all(&key)?;
+            file.sync_all()?;
+        }
+        std::fs::rename(&tmp_path, &key_path).map_err(|e| {
+            P2PError::Storage(StorageError::Database(
+                format!("Failed to store integrity key: {e}").into(),
+            ))
+        })?;
+        Ok(key)
     }
 
     /// Insert or update state entry
